@@ -1078,8 +1078,9 @@ func vc08RunCase(t *testing.T, r *vRand, caseNo int, nops int, out *vOut, stats 
 	w, gen := vc08NewWorld(t, stats, lookback, disable, genAccts)
 	defer w.close()
 
-	dense := caseNo%3 == 0
-	w.sparse = caseNo%3 == 2
+	dense := caseNo%4 == 0
+	w.sparse = caseNo%4 == 2
+	rare := caseNo%4 == 3 // most operations are not followed by lookups at all
 	w.dump()
 	w.sweep(r, dense)
 	var pendingReader func()
@@ -1156,6 +1157,10 @@ func vc08RunCase(t *testing.T, r *vRand, caseNo int, nops int, out *vOut, stats 
 			stats["op_block"]++
 		}
 		w.dump()
+		if rare && r.Intn(4) != 0 {
+			lastBlocked = nil
+			continue
+		}
 		lastBlocked = w.sweep(r, dense)
 		if w.phase == 2 {
 			stats["windows_swept"]++
